@@ -336,6 +336,69 @@ fn gen_step(rng: &mut StdRng, s: &Sess, cur: &Dump, cfg: &Cfg) -> PStep {
     PStep { sets, raw }
 }
 
+/// deterministic boundary grid (part "edge"): items are resolved against the CURRENT length L of the slot when they are executed
+#[derive(Clone, Debug)]
+enum Edge {
+    Range(u8, usize, u64),          // opcode (SCWQ SRWQ SWWQ SCLR), key index, count
+    Srd(bool, usize, i64, i64),     // immediate form?, key index, offset - L, (offset + len) - L
+    Srw(usize, i64),                // key index, word index - L / 8
+    Sup(bool, usize, i64, i64),     // immediate form?, key index, offset - L (i64::MAX = the append marker 2^64-1), (offset + len) - max
+    Swr(bool, usize, i64),          // immediate form?, key index, len - max
+}
+thread_local! { static EDGE_QUEUE: std::cell::RefCell<std::collections::VecDeque<Edge>> = std::cell::RefCell::new(Default::default()); }
+
+fn edge_grid() -> Vec<Edge> {
+    let mut v = vec![];
+    for op in [0xc0u8, 0x37, 0x3b, 0x39] { for ki in [6usize, 5, 4] { for count in 0..=4u64 { v.push(Edge::Range(op, ki, count)); } } }
+    // (every read item is preceded by a write that makes the slot present with a known length: 40, 64, 1 or 0 bytes —
+    //  a panicking read reverts its transaction and with it the write)
+    for (ki, l0) in [(0usize, 40i64), (1, 1), (3, 0)] {
+        for doff in [-1000i64, -1, 0, 1] { for dend in [-1i64, 0, 1, 2] {
+            v.push(Edge::Swr(false, ki, l0 - 64)); v.push(Edge::Srd((doff + dend) % 2 != 0, ki, doff, dend));
+        } }
+        for dw in [-1i64, 0, 1] { v.push(Edge::Swr(false, ki, l0 - 64)); v.push(Edge::Srw(ki, dw)); }
+    }
+    for ki in [2usize, 8] {
+        for doff in [-1i64, 0, 1, i64::MAX] { for dend in [-1i64, 0, 1] { v.push(Edge::Sup(false, ki, doff, dend)); v.push(Edge::Sup(true, ki, doff, dend)); } }
+        for dl in [-1i64, 0, 1] { v.push(Edge::Swr(false, ki, dl)); v.push(Edge::Swr(true, ki, dl)); }
+    }
+    v
+}
+
+fn resolve_edge(e: &Edge, s: &Sess, cur: &Dump) -> PStep {
+    let lof = |ki: usize| slot_len(cur, &s.cid, &s.keys[ki]).unwrap_or(0) as i64;
+    let kp = |ki: usize| (KEY as usize, s.keys_addr + 32 * ki as u64);
+    let nn = |x: i64| x.max(0) as u64;
+    match *e {
+        Edge::Range(op, ki, count) => match op {
+            0xc0 => PStep { sets: vec![kp(ki), (A2 as usize, count)], raw: enc_rrrr(0xc0, KEY, A2, 0, 0) },
+            0x37 => PStep { sets: vec![kp(ki), (A2 as usize, count)], raw: enc_rrrr(0x37, KEY, STAT, A2, 0) },
+            0x3b => PStep { sets: vec![kp(ki), (A2 as usize, s.vals_addr + 100), (A3 as usize, count)], raw: enc_rrrr(0x3b, KEY, STAT, A2, A3) },
+            _ => PStep { sets: vec![kp(ki), (A2 as usize, s.buf + 512), (A3 as usize, count)], raw: enc_rrrr(0x39, A2, STAT, KEY, A3) },
+        },
+        Edge::Srd(imm, ki, doff, dend) => {
+            let l = lof(ki);
+            let off = if doff <= -1000 { 0 } else { nn(l + doff) };
+            let len = nn(l + dend - off as i64);
+            let mut sets = vec![kp(ki), (A2 as usize, s.buf + 1024), (A3 as usize, off)];
+            if imm { PStep { sets, raw: enc_rrrr(0xc2, A2, KEY, A3, len.min(63) as u8) } } else { sets.push((A4 as usize, len)); PStep { sets, raw: enc_rrrr(0xc1, A2, KEY, A3, A4) } }
+        }
+        Edge::Srw(ki, dw) => PStep { sets: vec![kp(ki)], raw: enc_rrrr(0x38, DST, STAT, KEY, nn(lof(ki) / 8 + dw).min(63) as u8) },
+        Edge::Sup(imm, ki, doff, dend) => {
+            let l = lof(ki);
+            let (off, base) = if doff == i64::MAX { (u64::MAX, l) } else { (nn(l + doff), nn(l + doff) as i64) };
+            let len = nn(s.max_len as i64 + dend - base);
+            let mut sets = vec![kp(ki), (A2 as usize, s.vals_addr), (A3 as usize, off)];
+            if imm { PStep { sets, raw: enc_rrrr(0xc6, KEY, A2, A3, len.min(63) as u8) } } else { sets.push((A4 as usize, len)); PStep { sets, raw: enc_rrrr(0xc5, KEY, A2, A3, A4) } }
+        }
+        Edge::Swr(imm, ki, dl) => {
+            let len = nn(s.max_len as i64 + dl);
+            let mut sets = vec![kp(ki), (A2 as usize, s.vals_addr + 8)];
+            if imm { PStep { sets, raw: enc_rri(0xc4, KEY, A2, len.min(4095) as u16) } } else { sets.push((A3 as usize, len)); PStep { sets, raw: enc_rrrr(0xc3, KEY, A2, A3, 0) } }
+        }
+    }
+}
+
 /// per-step result summary used for the cold / warm / flush comparison (everything but the gas registers)
 fn summary(ev: &Value, post_regs: &[u64; 64]) -> Value {
     // every register the callee's instructions can touch ($zero..$flag and 0x10..0x1f), the two gas registers blanked
@@ -456,7 +519,8 @@ fn run_tx(out: &mut Out, run: u64, vm: &mut Vm<MemoryStorage>, ws: &WorldSt, tx:
         let nsteps = match plan { Some(p) => p.get(sess_no).map(|v| v.len()).unwrap_or(0), None => cfg.steps_per_session };
         let mut died = false;
         for j in 0..nsteps {
-            let mut st = match plan { Some(p) => p[sess_no][j].clone(), None => gen_step(rng, &sess, &rec.last, cfg) };
+            let queued = if plan.is_none() { EDGE_QUEUE.with(|q| q.borrow_mut().pop_front()) } else { None };
+            let mut st = match (plan, &queued) { (Some(p), _) => p[sess_no][j].clone(), (None, Some(e)) => resolve_edge(e, &sess, &rec.last), (None, None) => gen_step(rng, &sess, &rec.last, cfg) };
             if plan.is_none() {
                 st.sets.push((RPC, entry_pc));
                 if cfg.low_gas && rng.gen_range(0..7) == 0 { let g = vm.registers()[RCGAS]; st.sets.push((RCGAS, g.min([0u64, 1, 2, 5, 12, 25, 60, 105, 120, 140, 260, 600][rng.gen_range(0..12)]))); }
@@ -542,7 +606,7 @@ fn run_world(out: &mut Out, run: &mut u64, seed: u64, cfg: &Cfg, variant: Varian
 }
 
 fn twin(o: &Opts, out: &mut Out, run: &mut u64) {
-    let n = if o.thorough() { 110 } else { 8 };
+    let n = if o.thorough() { 110 } else { 6 };
     for k in 0..n {
         let cfg = Cfg { thorough: o.thorough(), steps_per_session: if o.thorough() { 14 } else { 10 }, risky: 0.035, low_gas: false, max_len: 1 << 20, gas: None };
         let seed = o.seed.wrapping_mul(1000).wrapping_add(k);
@@ -581,6 +645,29 @@ fn small(o: &Opts, out: &mut Out, run: &mut u64) {
     }
 }
 
+/// the deterministic boundary grid: ranges ending at 2^256 - 1, slices / words / updates / writes at the ends of values and at
+/// the maximum slot length; transactions (one call of contract A each) are run until the grid is used up
+fn edge(o: &Opts, out: &mut Out, run: &mut u64) {
+    let cfg = Cfg { thorough: o.thorough(), steps_per_session: 12, risky: 0.0, low_gas: false, max_len: 64, gas: None };
+    let seed = o.seed.wrapping_mul(1000).wrapping_add(970);
+    let mut ws = build_world(seed, &cfg);
+    let mut rng = o.rng(3328);
+    let mut vm = Vm::<MemoryStorage>::with_storage(MemoryInstance::new(), ws.w.storage.clone(), ws.w.iparams());
+    let tx_offset = vm.tx_offset() as u64;
+    out.ev(json!({"ev": "Seg"}));
+    EDGE_QUEUE.with(|q| q.borrow_mut().extend(edge_grid()));
+    let mut t = 0;
+    while EDGE_QUEUE.with(|q| !q.borrow().is_empty()) && t < 400 {
+        let calls = vec![CallPlan { outer: ws.a, inner: None, fwd: None, key_index: 0 }];
+        let tx = build_tx(&mut ws, &calls, 10_000_000, tx_offset);
+        *run += 1;
+        let (mut made, mut results) = (vec![], vec![]);
+        run_tx(out, *run, &mut vm, &ws, tx, t > 0, &cfg, Variant::Cold, &mut rng, None, &mut made, &mut results, false);
+        t += 1;
+    }
+    EDGE_QUEUE.with(|q| q.borrow_mut().clear());
+}
+
 /// storage instructions outside a contract (script context): one instruction per transaction
 fn ext(o: &Opts, out: &mut Out, run: &mut u64) {
     let cfg = Cfg { thorough: o.thorough(), steps_per_session: 1, risky: 0.0, low_gas: false, max_len: 1 << 20, gas: None };
@@ -607,6 +694,7 @@ fn record(o: &Opts) -> Res<()> {
     if want("twin") { twin(o, &mut out, &mut run); }
     if want("gas") { gas(o, &mut out, &mut run); }
     if want("small") { small(o, &mut out, &mut run); }
+    if want("edge") { edge(o, &mut out, &mut run); }
     if want("ext") { ext(o, &mut out, &mut run); }
     let n = out.finish();
     eprintln!("vmstorage: {n} events");
